@@ -277,9 +277,9 @@ def start_init(h, cid, root, mounts, watch_pid):
         lines.append("mount --bind '%s' '%s'" % (src, tgt))
         if not m.get("RW", True):
             lines.append("mount -o remount,bind,ro '%s'" % tgt)
-    ready = os.path.join(h, "state", cid, "ready")
-    lines.append("echo ok > '%s'" % ready)
-    lines.append("exec chroot '%s' /usr/bin/tail --pid=%d -f /dev/null" % (root, int(watch_pid)))
+    # ready is signalled from INSIDE the chroot: `nsenter -r` takes the root of this very process
+    ready = os.path.join(root, ".ready")
+    lines.append("exec chroot '%s' /bin/sh -c 'echo ok > /.ready; exec /usr/bin/tail --pid=%d -f /dev/null'" % (root, int(watch_pid)))
     script = os.path.join(h, "state", cid, "init.sh")
     with open(script, "w") as f:
         f.write("\n".join(lines) + "\n")
